@@ -54,4 +54,5 @@ CONF = dict(
                  'fails to verify, whose transmit/receive fields are the reported t2/t1 with t1 <= t2; a returned offset is that of an accepted exchange; a cookie in the pool '
                  'after a call comes from the pool before it, a key exchange, or a datagram that passed all of these'),
     timeout_quick=900, timeout_thorough=3000,
+    min_cases={'ip.hist': 480, 'scion.allfail': 1, 'scion.allfailauth': 1, 'scion.auth': 160, 'scion.hist': 160, 'scion.nts': 38, 'scion.ntsauth': 40},
 )
